@@ -42,7 +42,7 @@ PROPS = {
         'level_note': 'The per-side monitors of C03, C07 and C13 also run on both sides of every two-party case; the joint monitor ties the two-party model to the crate.',
     },
     'C07': {
-        'modules': ['C07', 'TieWrite', 'TieRead', 'TieRun', 'TieCodec', 'TieConfig', 'CfgLive'],
+        'modules': ['C07', 'TieWrite', 'TieRead', 'TieRun', 'TieCodec', 'TieConfig', 'CfgLive', 'TieReadIn'],
         'families': [('corpus:', 0, 0), ('ep:tinybuf', 600, 15000), ('ep:hostile', 2500, 80000), ('ep:mixed', 500, 20000), ('ep:limits', 300, 10000),
                      ('hs:server', 1200, 40000), ('hs:client', 1200, 40000), ('tp', 150, 4000), ('ep:cfglive', 400, 8000)],
         'rule': 'random, mutated-valid and boundary-crafted byte streams x per-call transport outcomes {n bytes, 0, WouldBlock, Interrupted, reset, '
@@ -107,7 +107,7 @@ PROPS = {
                       '(C05_unlimited_needs_size_bound) and replaced by effective limits / a size hypothesis.',
     },
     'C05': {
-        'modules': ['C05', 'TieWrite', 'TieRead', 'TieRun', 'TieCodec', 'TieConfig', 'TieFsock', 'FsockProps'],
+        'modules': ['C05', 'TieWrite', 'TieRead', 'TieRun', 'TieCodec', 'TieConfig', 'TieFsock', 'FsockProps', 'TieReadIn'],
         'families': [('fs', 500, 15000), ('ep:codec', 2500, 80000), ('ep:sizes', 300, 5000), ('ep:pipe', 150, 3000), ('ep:cfglive', 400, 8000)],
         'rule': 'inbound streams under many segmentations (1-byte, small, large chunks, WouldBlock between segments), every (pre-read, rest) split '
                 'the generator picks, six read-buffer sizes; each case compared with the one-shot decoder of the whole stream',
@@ -203,7 +203,7 @@ PROPS = {
         'level_note': 'Unbounded histories by induction; tie to code by correspondence (wire bytes compared byte for byte, masks fixed by the hook).',
     },
     'C06': {
-        'modules': ['C06', 'C06Global', 'TieWrite', 'TieRead', 'TieRun', 'TieCodec', 'TieColl', 'TieConfig', 'TieFsock', 'FsockProps', 'TieInc'],
+        'modules': ['C06', 'C06Global', 'TieWrite', 'TieRead', 'TieRun', 'TieCodec', 'TieColl', 'TieConfig', 'TieFsock', 'FsockProps', 'TieInc', 'TieReadIn'],
         'families': [('fs', 800, 20000), ('corpus:limits', 0, 0), ('ep:limits', 1500, 40000), ('ep:codec', 500, 10000), ('ep:cfglive', 400, 8000)],
         'rule': 'frame/fragment size patterns around the configured limits (limit-1, limit, limit+1; limits 0,1,5,10,125,126,300), '
                 'headers announcing up to 2^64-1 bytes with nothing following, every read-buffer size; read-only cases are also '
@@ -276,7 +276,7 @@ PROPS = {
                       'through read is covered by the correspondence and the RFC-decoder monitor.',
     },
     'C18': {
-        'modules': ['C18', 'TieFrame', 'TieCodec', 'TieFsock', 'TieHdr'],
+        'modules': ['C18', 'TieFrame', 'TieCodec', 'TieFsock', 'TieHdr', 'C18Gen'],
         'families': [('fs', 500, 15000), ('pure:hparse', 1, 1), ('pure:hparseat', 1500, 60000), ('pure:hformat', 2000, 100000), ('pure:fformat', 300, 6000)],
         'exhaustive': True,
         'rule': 'all 65536 values of the first two header bytes with boundary extended lengths, masks and every truncation point '
@@ -292,7 +292,7 @@ PROPS = {
                       'differential run over all first-two-byte values plus an independent RFC header reader as monitor.',
     },
     'C19': {
-        'modules': ['C19', 'TieFrame', 'TieFsock', 'FsockProps', 'TieMask'],
+        'modules': ['C19', 'TieFrame', 'TieFsock', 'FsockProps', 'TieMask', 'C19Gen'],
         'miri': 'mirimask',
         'families': [('ep:codec', 500, 10000), ('fs', 500, 15000), ('pure:mask', 4, 40), ('pure:fformat', 200, 4000), ('ep:maskpaths', 1, 1)],
         'rule': 'payload lengths 0..=67 x 8 alignments x keys sweeping every value of every key byte through the real '
